@@ -16,7 +16,7 @@
 (*   kind \in run ambiguous nomethod rejected badforward internal raised   *)
 (*   entered[j].next.has = TRUE iff body j delegated with call_next/next   *)
 (***************************************************************************)
-EXTENDS Dependent, TLC, Json, IOUtils
+EXTENDS Dependent, ClassOvld, TLC, Json, IOUtils
 
 Cases == JsonDeserialize(IOEnv.VF_CASES)
 
@@ -27,7 +27,9 @@ Case    == Cases[i]
 W       == MkWorld(Case.world)
 Props   == Range(Case.props)
 
-MOf(st) == IF "methods" \in DOMAIN st THEN Range(st.methods) ELSE Range(Case.world.methods)
+MOf(st) == IF "methods" \in DOMAIN st THEN Range(st.methods)
+           ELSE IF "host" \in DOMAIN st THEN EffMethods(Case.world.hosts, st.host)   \* C17: Doc overload set of the class
+           ELSE Range(Case.world.methods)
 ById(Ms, id) == CHOOSE m \in Ms : m.id = id
 
 (* some registered method has the call's shape (count + keyword names) *)
@@ -70,6 +72,8 @@ C02Clause(st) ==
 ChainExpect(st, j) ==
   LET E == st.obs.entered  Ms == MOf(st) IN
   IF j = 1 THEN Outcome(W, ApplicableSet(W, Ms, st.call), st.call)
+  ELSE IF "via" \in DOMAIN E[j-1].next /\ E[j-1].next.via = "recurse"
+       THEN Outcome(W, ApplicableSet(W, Ms, E[j-1].next.call), E[j-1].next.call)    \* recurse = a fresh call
   ELSE NextOutcome(W, Ms, ById(Ms, E[j-1].m), E[j-1].next.call)
 
 RECURSIVE ChainClause(_, _)
@@ -91,7 +95,9 @@ ChainClause(st, j) ==
 
 VisitedOnce(st) ==
   LET E == st.obs.entered IN
-  \A a, b \in DOMAIN E : (a # b /\ E[a].call = E[b].call) => E[a].m # E[b].m
+  \* a recurse inside the chain starts a fresh call: methods may legitimately run again
+  \/ \E a \in DOMAIN E : "via" \in DOMAIN E[a].next /\ E[a].next.via = "recurse"
+  \/ \A a, b \in DOMAIN E : (a # b /\ E[a].call = E[b].call) => E[a].m # E[b].m
 
 C07Clause(st) ==
   IF ~VisitedOnce(st) THEN "visited_once" ELSE ChainClause(st, 1)
@@ -179,6 +185,18 @@ C10Clause(st) ==
        IF c1 # "" THEN "runs_iff_holds." \o c1
        ELSE LET c2 == C02Clause(st) IN IF c2 = "" THEN "" ELSE "value_outcome." \o c2
 
+(***************************************************************************)
+(* C17: a probe f(arg) on an instance of class st.host, made after class   *)
+(* st.after had been defined.  The Doc overload set is EffMethods; self    *)
+(* must be the instance.  The clause name says whether the probe re-checks *)
+(* an earlier class (bases_and_siblings_unchanged).                        *)
+(***************************************************************************)
+C17Clause(st) ==
+  IF st.obs.slf # "ok" THEN "self_threaded"
+  ELSE LET c == PlainClause(st) IN
+       IF c = "" THEN ""
+       ELSE (IF st.after > st.host THEN "bases_and_siblings_unchanged." ELSE "class_overload_set.") \o c
+
 StepClause(st) ==
   LET c1 == IF "C01" \in Props THEN C01Clause(st) ELSE ""
       c2 == IF "C02" \in Props THEN C02Clause(st) ELSE ""
@@ -187,6 +205,7 @@ StepClause(st) ==
       c18 == IF "C18" \in Props THEN C18Clause(st) ELSE ""
       c19 == IF "C19" \in Props THEN C19Clause(st) ELSE ""
       c14 == IF "C14" \in Props THEN C14Clause(st) ELSE ""
+      c17 == IF "C17" \in Props THEN C17Clause(st) ELSE ""
       c10 == IF "C10" \in Props THEN C10Clause(st)
              ELSE IF "C10G" \in Props THEN
                   (IF \E q \in DOMAIN st.obs.predlog : ~Sat(W, st.obs.predlog[q].t.bound, st.obs.predlog[q].a.c)
@@ -197,6 +216,7 @@ StepClause(st) ==
      ELSE IF c19 # "" THEN "C19:" \o c19
      ELSE IF c14 # "" THEN "C14:" \o c14
      ELSE IF c10 # "" THEN "C10:" \o c10
+     ELSE IF c17 # "" THEN "C17:" \o c17
      ELSE IF c1 # "" THEN "C01:" \o c1
      ELSE IF c2 # "" THEN "C02:" \o c2
      ELSE IF c7 # "" THEN "C07:" \o c7
